@@ -46,6 +46,7 @@ type Exec struct {
 	foot     *footprint
 	misc     map[string]Value
 	crashAt   string
+	encLog    []sym.Sc
 	regexps   map[*Value]string
 	allocHook func(instr *ssa.MakeSlice, elem types.Type, n sym.Sc)
 }
